@@ -50,3 +50,16 @@ func (v *VerifPipelineConn) ExchangeContext(ctx context.Context, m []byte) (*dns
 }
 
 func (v *VerifPipelineConn) Close() { v.c.Close() }
+
+// VerifQuicState reads the shared fields of a QuicTransport under its lock.
+func VerifQuicState(t *QuicTransport) (closed bool, c any, call any) {
+	t.m.Lock()
+	defer t.m.Unlock()
+	if t.c != nil {
+		c = t.c
+	}
+	if t.dialingCall != nil {
+		call = t.dialingCall
+	}
+	return t.closed, c, call
+}
